@@ -585,6 +585,50 @@ def reshape_conditionals(fn, r, stats, key):
                         changed[0] += 1
                         i = j + 1
                         continue
+            if isinstance(s, ast.If) and surplus(s) and not s.orelse and terminates(s.body) and i + 1 < len(stmts):
+                # `if A: X` / `if B: X` (X leaves the block)  ==  `if A or B: X`
+                j = i + 1
+                tests = [s.test]
+                while j < len(stmts) and isinstance(stmts[j], ast.If) and not stmts[j].orelse and ast.dump(ast.Module(stmts[j].body, [])) == ast.dump(ast.Module(s.body, [])):
+                    tests.append(stmts[j].test)
+                    j += 1
+                if len(tests) > 1:
+                    vals = []
+                    for t in tests:
+                        vals.extend(t.values if isinstance(t, ast.BoolOp) and isinstance(t.op, ast.Or) else [t])
+                    cand = ast.fix_missing_locations(ast.copy_location(ast.If(test=ast.copy_location(ast.BoolOp(op=ast.Or(), values=vals), s.test), body=s.body, orelse=[]), s))
+                    if wanted(cand):
+                        swap(stmts[i:j], [cand])
+                        out.append(cand)
+                        changed[0] += 1
+                        i = j
+                        continue
+            if isinstance(s, ast.Assign) and len(s.targets) == 1 and isinstance(s.targets[0], ast.Name) and surplus(s) and i + 1 < len(stmts):
+                # `a = x` / `b = y` (independent)  ==  `a, b = x, y`
+                j = i
+                grp = []
+                while j < len(stmts) and isinstance(stmts[j], ast.Assign) and len(stmts[j].targets) == 1 and isinstance(stmts[j].targets[0], ast.Name) and len(grp) < 4:
+                    grp.append(stmts[j])
+                    j += 1
+                done_ = False
+                for k in range(len(grp), 1, -1):
+                    g = grp[:k]
+                    names_ = [x.targets[0].id for x in g]
+                    reads = set()
+                    for x in g:
+                        reads |= {n.id for n in ast.walk(x.value) if isinstance(n, ast.Name)}
+                    if len(set(names_)) == k and not (set(names_) & reads) and all(_pure(x.value) for x in g):
+                        cand = ast.fix_missing_locations(ast.copy_location(ast.Assign(targets=[ast.Tuple(elts=[x.targets[0] for x in g], ctx=ast.Store())],
+                                                                                       value=ast.Tuple(elts=[x.value for x in g], ctx=ast.Load())), s))
+                        if wanted(cand):
+                            swap(g, [cand])
+                            out.append(cand)
+                            changed[0] += 1
+                            i += k
+                            done_ = True
+                            break
+                if done_:
+                    continue
             if isinstance(s, ast.If) and surplus(s) and not s.orelse and len(s.body) == 1 and isinstance(s.body[0], ast.Continue) and i + 1 < len(stmts):
                 # `if c: continue` / rest   ==   `if not c: rest`   (and `if A: if B: X` == `if A and B: X`)
                 from .au import negate
@@ -1020,7 +1064,7 @@ def _inline_new_temps(fn, ref_names, params, stats, key):
     return done
 
 
-IMMUTABLE_RESULT = {'len', 'int', 'str', 'float', 'bool', 'type', 'isinstance', 'abs', 'min', 'max', 'lower', 'upper', 'startswith', 'endswith', 'is_int', 'is_str', 'is_num',
+IMMUTABLE_RESULT = {'range', 'len', 'int', 'str', 'float', 'bool', 'type', 'isinstance', 'abs', 'min', 'max', 'lower', 'upper', 'startswith', 'endswith', 'is_int', 'is_str', 'is_num',
                     'is_date', 'is_pd', 'is_df', 'is_arr', 'is_ts', 'is_series', 'is_nan', 'tuple', 'as_tuple', 'hasattr', 'callable', 'strip', 'get'}
 MUTATORS = {'append', 'extend', 'insert', 'pop', 'remove', 'clear', 'update', 'setdefault', 'sort', 'reverse', 'add', 'discard', 'popitem'}
 
